@@ -1,10 +1,9 @@
 """C04 -- containers construct and destroy each element exactly once; copies are deep.
-Decided for the two containers whose element lifetime the verifier can follow: PoolList (step
-contracts: the ghost construction / destruction counters of the element type are part of the
-postconditions) and Array (bounded whole-array units over the real allocation, thorough tier).
-For List / HashMap / HashSet / PoolMap / Map / MultiMap the element is a MEMBER of the node and
-goto-cc does not run member destructors in `item->~Item()` (probe P28), so "destroyed exactly
-once" has no faithful obligation there: not decided."""
+Decided for PoolList only (step contracts: the ghost construction / destruction counters of the
+element type are part of the postconditions).  Array: bounded units exist (units/_array_units.py,
+harness/array.cpp) but are parked -- they exhaust memory on the repaired tree.  For List / HashMap /
+HashSet / PoolMap / Map / MultiMap the element is a MEMBER of the node and goto-cc does not run member
+destructors in `item->~Item()` (probe P28): not decided."""
 import importlib.util, os
 _spec = importlib.util.spec_from_file_location("units_c03_for_c04", os.path.join(os.path.dirname(__file__), "c03.py"))
 _c03 = importlib.util.module_from_spec(_spec)
@@ -16,16 +15,14 @@ for _u in _c03.UNITS:
         _d = dict(_u)
         _d["prop"] = "C04"
         UNITS.append(_d)
-TRUSTED = _c03.TRUSTED + ["goto-cc C++ front end; Array.hpp with compat rules R1, R12 (destructor body moved into a member function)"]
+TRUSTED = _c03.TRUSTED
 ASSUMPTIONS = [
-    "PoolList<T> and Array<T> only, with an element class that counts constructions / destructions in ghost state (the class is named `T` so that goto-cc "
-    "resolves the pseudo-destructor calls `->~T()`); List, HashMap, HashSet, PoolMap, Map, MultiMap: NOT decided (member destructors are not run by goto-cc, P28)",
-    "PoolList: step contracts over a symbolic neighbourhood (append(): exactly one construction, in place, at the returned address; every remove flavour: exactly one "
+    "PoolList<T> only, with an element class that counts constructions / destructions in ghost state (the class is named `T` so that goto-cc "
+    "resolves the pseudo-destructor calls `->~T()`); Array, List, HashMap, HashSet, PoolMap, Map, MultiMap: NOT decided",
+    "step contracts over a symbolic neighbourhood (append(): exactly one construction, in place, at the returned address; every remove flavour: exactly one "
     "destruction at the element's address; swap: none); PoolList::clear and ~PoolList are not covered; append(a, ...) overloads are member templates goto-cc cannot instantiate",
-    "Array: bounded units with a fixed element count per unit (<= 4, growth 3 -> 7 inside), thorough tier only (about 20 GB of memory each; at most two run at a time): "
-    "live-element count == size() after every operation and 0 after destruction, released storage never read (pointer obligations), copies deep, assignment to itself, "
-    "append(a[j]) / resize(n, a[j]) with an element of the array as argument",
-    "no leak / double free: the live counter returns to 0 and cbmc's deallocated-object obligations hold; memory-leak checking of the raw blocks themselves is not enabled",
+    "Array: the bounded units found the append(a[j]) use-after-free on the unrepaired tree and were discharged for append / copy / assignment there; on the repaired tree every unit "
+    "exhausts 44 GB (solver ERROR) -- parked, enable with NV_ARRAY=1",
 ]
-EXPLANATION = ("Element lifetimes of PoolList (proof, per step) and Array (bounded) against ghost construction / destruction counters; "
-               "found and fixed: Array::append(a[i]) / resize(n, a[i]) use-after-free, Array self-assignment.")
+EXPLANATION = ("Element lifetimes of PoolList (proof, per step) against ghost construction / destruction counters; "
+               "found and fixed on the way: Array::append(a[i]) / resize(n, a[i]) use-after-free, Array self-assignment (Array units parked).")
